@@ -174,16 +174,16 @@ def run(pid, level="model_checking"):
     thorough = rep.tier == "thorough"
     st, tr_, cmd = design_check(thorough)
     # ---- code -> spec: random histories
-    n_rand = 4000 if thorough else 600
+    n_rand = 3000 if thorough else 600
     jobs = random_jobs(pid, n_rand, rep.seed, [10, 20, 30, 45] if not thorough else [15, 30, 50, 80])
     # ---- spec -> code: TLC paths
     bat = gen.Gen(rep.seed + 5, ntk=NTK, nfk=NFK).battery(4)
     alpha = {"C03": "update", "C02": "remove", "C10": "meas", "C11": "fail"}.get(pid, "index")
     depth = {"index": 4 if thorough else 3, "update": 2, "remove": 3 if thorough else 2, "meas": 3 if thorough else 2, "fail": 3}[alpha]
     paths, rp = export_paths(alpha, depth, 4)
-    if len(paths) > (40000 if thorough else 2500):
+    if len(paths) > (10000 if thorough else 2500):
         rnd = random.Random(rep.seed)
-        paths = rnd.sample(paths, 40000 if thorough else 2500)
+        paths = rnd.sample(paths, 10000 if thorough else 2500)
     sims, rs = export_paths(alpha, 10 if thorough else 8, 5, simulate="num=%d" % (400 if thorough else 60),
                             sim_depth=(11 if thorough else 9), seed=rep.seed + 1)
     jobs += path_jobs(paths, "p", bat) + path_jobs(sims, "s", bat)
